@@ -95,7 +95,7 @@ func benignPolicy(r *simkit.Run) func(q *simkit.ReqRecord) simkit.FaultSpec {
 		case 1:
 			return simkit.FaultSpec{Kind: simkit.FChunk, K: 1 + r.Tape.Choose(7, "chunk")}
 		case 2:
-			return simkit.FaultSpec{Kind: simkit.FDelay, Delay: time.Duration(1+r.Tape.Choose(2000, "delay")) * time.Millisecond}
+			return simkit.FaultSpec{Kind: simkit.FDelay, Delay: time.Duration(1+r.Tape.Choose(2000, "delay"))*time.Millisecond + jitter(r.Tape)%time.Millisecond}
 		}
 		return simkit.FaultSpec{}
 	}
